@@ -448,8 +448,16 @@ func sortColumns(ssl []sql.SortSpecification, qfields storage.Fields, rows []*st
 				continue
 			}
 
+			if rhs == nil {
+				// NULL sorts before any other value
+				return ssl[sortIdx].OrderingSpecification.Type == sql.DESC
+			}
+
 			sortAsc := false
 			switch lhs.(type) {
+			case nil:
+				// NULL sorts before any other value
+				sortAsc = true
 			case int64:
 				sortAsc = lhs.(int64) < rhs.(int64)
 			case string:
